@@ -431,7 +431,7 @@ int main(int argc, char** argv) {
     } else if (w == "select") {
       size_t i; is >> i;
       if (!api->select_candidate(g_session, i)) status = "noop";
-    } else if (w == "select_whole" || w == "select_part" || w == "select_text" || w == "select_completion" || w == "delete_user" || w == "delete_text") {
+    } else if (w == "select_whole" || w == "select_part" || w == "select_text" || w == "select_completion" || w == "delete_completion" || w == "delete_user" || w == "delete_text") {
       std::string arg; is >> arg;
       rime::Context* ctx = context();
       size_t len = ctx ? ctx->input().length() : 0;
@@ -441,7 +441,7 @@ int main(int argc, char** argv) {
       for (size_t i = 0; i < cs.size(); ++i) {
         bool ok = w == "select_whole" ? cs[i].end == len
                   : w == "select_part" ? cs[i].end < len
-                  : w == "select_completion" ? cs[i].type == "completion"
+                  : (w == "select_completion" || w == "delete_completion") ? cs[i].type == "completion"
                   : w == "delete_user" ? (cs[i].type == "user_phrase" || cs[i].type == "user_table")
                                        : cs[i].text == want;
         if (ok && k-- == 0) { found = (long)i; break; }
